@@ -7,6 +7,9 @@ import (
 
 	"github.com/casbin/casbin/v2"
 	"github.com/casbin/casbin/v2/model"
+	"github.com/casbin/casbin/v2/rbac"
+	defaultrolemanager "github.com/casbin/casbin/v2/rbac/default-role-manager"
+	"github.com/casbin/casbin/v2/util"
 
 	"verif/harness/internal/mem"
 	"verif/harness/internal/proto"
@@ -221,8 +224,12 @@ func (o EOp) Line() string {
 		return fmt.Sprintf("rmf %s %d %s", sp, o.FI, proto.EncRule(o.Vals))
 	case "updf":
 		return fmt.Sprintf("updf %s %d %s || %s", sp, o.FI, proto.EncRule(o.Vals), proto.EncRules(o.News))
-	case "clear", "load", "save", "buildlinks":
+	case "clear", "load", "save", "buildlinks", "setmodel":
 		return o.Kind
+	case "addmf", "adddmf":
+		return o.Kind + " " + o.PType + " " + o.What
+	case "setrm":
+		return "setrm " + o.PType
 	case "set":
 		b := "0"
 		if o.On {
@@ -241,6 +248,7 @@ func (o EOp) Line() string {
 
 // Sess is a live enforcer under test with its recording adapter and watcher.
 type Sess struct {
+	MS      *MSpec
 	E       *casbin.Enforcer
 	A       *mem.Adapter
 	W       *mem.Watcher
@@ -407,6 +415,20 @@ func (s *Sess) Exec(o EOp) (obs string) {
 		return okErr(e.SavePolicy())
 	case "buildlinks":
 		return okErr(e.BuildRoleLinks())
+	case "addmf":
+		return proto.Bool(e.AddNamedMatchingFunc(o.PType, o.What, matchFns[o.What]))
+	case "adddmf":
+		return proto.Bool(e.AddNamedDomainMatchingFunc(o.PType, o.What, matchFns[o.What]))
+	case "setrm":
+		if s.MS.GCount[o.PType] > 2 {
+			e.SetNamedRoleManager(o.PType, defaultrolemanager.NewRoleManager(10))
+		} else {
+			e.SetNamedRoleManager(o.PType, defaultrolemanager.NewRoleManagerImpl(10))
+		}
+		return okErr(e.BuildRoleLinks())
+	case "setmodel":
+		e.SetModel(s.MS.Build())
+		return "#"
 	case "set":
 		switch o.Flag {
 		case "autosave":
@@ -490,4 +512,14 @@ func (s *Sess) Exec(o EOp) (obs string) {
 		return encSet(rs)
 	}
 	panic("bad op " + o.Kind)
+}
+
+// the matching functions a case may register by name
+var matchFns = map[string]rbac.MatchingFunc{
+	"keyMatch":  util.KeyMatch,
+	"keyMatch2": util.KeyMatch2,
+	"regexMatch": func(a, b string) bool {
+		defer func() { _ = recover() }()
+		return util.RegexMatch(a, b)
+	},
 }
